@@ -66,6 +66,14 @@ Theorem C07_async_sequential_starts_in_turn : forall P cfg s a p h rest s' ls, r
 Proof. exact async_sequential_starts_in_turn. Qed.
 Print Assumptions C07_async_sequential_starts_in_turn.
 
+(* - and, over every schedule, whoever is about to enter the body of an Async+Sequential handler heads the handler's
+   queue: by the FIFO theorem every delivery dispatched to the handler before this one has finished. *)
+Theorem C07_async_sequential_enters_in_turn : forall P cfg s a p h rest, reachable P cfg s ->
+  h_async (r_spec h) = true -> h_seq (r_spec h) = true ->
+  assoc_get (code s) a = Some (IEnter p h :: rest) -> at_head (queue s (r_id h)) a = true.
+Proof. exact async_sequential_enters_in_turn. Qed.
+Print Assumptions C07_async_sequential_enters_in_turn.
+
 Theorem C07_queued_deliveries_have_not_started : forall P cfg s, reachable P cfg s ->
   forall rid hd more b, queue s rid = hd :: more -> In b more ->
     exists p h, assoc_get (code s) b = Some [ITaskStart p h] /\ r_id h = rid /\ h_seq (r_spec h) = true.
